@@ -74,7 +74,7 @@ impl<R: Read + Seek> ReadBox<&mut R> for StsdBox {
 
         let (version, flags) = read_box_header_ext(reader)?;
 
-        reader.read_u32::<BigEndian>()?; // XXX entry_count
+        let entry_count = reader.read_u32::<BigEndian>()?;
 
         let mut avc1 = None;
         let mut hev1 = None;
@@ -82,32 +82,34 @@ impl<R: Read + Seek> ReadBox<&mut R> for StsdBox {
         let mut mp4a = None;
         let mut tx3g = None;
 
-        // Get box header.
-        let header = BoxHeader::read(reader)?;
-        let BoxHeader { name, size: s } = header;
-        if s > size {
-            return Err(Error::InvalidData(
-                "stsd box contains a box with a larger size than it",
-            ));
-        }
+        if entry_count > 0 {
+            // Get box header.
+            let header = BoxHeader::read(reader)?;
+            let BoxHeader { name, size: s } = header;
+            if s > size {
+                return Err(Error::InvalidData(
+                    "stsd box contains a box with a larger size than it",
+                ));
+            }
 
-        match name {
-            BoxType::Avc1Box => {
-                avc1 = Some(Avc1Box::read_box(reader, s)?);
+            match name {
+                BoxType::Avc1Box => {
+                    avc1 = Some(Avc1Box::read_box(reader, s)?);
+                }
+                BoxType::Hev1Box => {
+                    hev1 = Some(Hev1Box::read_box(reader, s)?);
+                }
+                BoxType::Vp09Box => {
+                    vp09 = Some(Vp09Box::read_box(reader, s)?);
+                }
+                BoxType::Mp4aBox => {
+                    mp4a = Some(Mp4aBox::read_box(reader, s)?);
+                }
+                BoxType::Tx3gBox => {
+                    tx3g = Some(Tx3gBox::read_box(reader, s)?);
+                }
+                _ => {}
             }
-            BoxType::Hev1Box => {
-                hev1 = Some(Hev1Box::read_box(reader, s)?);
-            }
-            BoxType::Vp09Box => {
-                vp09 = Some(Vp09Box::read_box(reader, s)?);
-            }
-            BoxType::Mp4aBox => {
-                mp4a = Some(Mp4aBox::read_box(reader, s)?);
-            }
-            BoxType::Tx3gBox => {
-                tx3g = Some(Tx3gBox::read_box(reader, s)?);
-            }
-            _ => {}
         }
 
         skip_bytes_to(reader, start + size)?;
@@ -131,7 +133,12 @@ impl<W: Write> WriteBox<&mut W> for StsdBox {
 
         write_box_header_ext(writer, self.version, self.flags)?;
 
-        writer.write_u32::<BigEndian>(1)?; // entry_count
+        let entry_count = self.avc1.is_some()
+            || self.hev1.is_some()
+            || self.vp09.is_some()
+            || self.mp4a.is_some()
+            || self.tx3g.is_some();
+        writer.write_u32::<BigEndian>(entry_count as u32)?;
 
         if let Some(ref avc1) = self.avc1 {
             avc1.write_box(writer)?;
